@@ -89,9 +89,10 @@ def activity(events):
 def coq_cap_snap(sid, sc, snap, active, done, events):
     owner = []
     for inst in snap["insts"]:
-        for k in inst["dc_keys"]:
-            if k.startswith("K") and k[1:].isdigit():
-                owner.append((inst["tag"], int(k[1:])))
+        ids = set(int(k[1:]) for k in inst["dc_keys"] if k.startswith("K") and k[1:].isdigit())
+        ids |= set(inst.get("req_ids") or [])      # request objects under ANY key (a request may inject nothing but its Req)
+        for q in sorted(ids):
+            owner.append((inst["tag"], q))
     ev = coq_list(["(%s, %s)" % (coq_bool(a), coq_nat(q)) for a, q in activity(events)])
     return "mkCS %s %s %s %s %s %s %s %s %s" % (
         coq_nat(sid), coq_nat(sc["min"]), coq_nat(sc["max"]), coq_list([coq_nat(t) for t in snap["free"]]), coq_list([coq_nat(t) for t in snap["addl"]]),
@@ -175,6 +176,35 @@ def overlap_scenario(sid, mn, mx, rng, faulty=False, model=None, rounds=2):
             sc["steps"].append({"op": "wait", "id": q})
         done += held + queued
         sc["steps"].append({"op": "snapshot", "probe": names, "_active": [], "_done": list(done)})
+    return sc
+
+
+def waiter_scenario(sid, mn, mx, rng, release_index=-1):
+    """max requests held (started one after the other: the last ones hold the ADDITIONAL instances), one more request that has
+    to wait; ONE held request is released (by default the last one, i.e. an additional instance is handed back while every
+    initial instance stays busy) and the waiter must then run to completion before anything else is released."""
+    rules = rules_v(1)
+    names = [r["name"] for r in rules]
+    sc = {"id": sid, "min": mn, "max": mx, "model": 1, "rules": rules, "steps": []}
+    rid = sid * 1000
+    held = []
+    for _ in range(mx):
+        rid += 1
+        held.append(rid)
+        sc["steps"].append(req_step(rid, rng.choice(["Execute", "ExecuteConcurrent", "ExecuteRulesWithMultiInputWithSpecifiedEM"]), names, hold_at="*"))
+    sc["steps"].append({"op": "snapshot", "probe": names, "_active": list(held), "_done": []})
+    rid += 1
+    waiter = rid
+    sc["steps"].append(req_step(waiter, "Execute", names, hold_at="", wait_ms=-1))
+    sc["steps"].append({"op": "sleep", "wait_ms": 40})
+    first = held[release_index]
+    sc["steps"].append({"op": "release", "id": first})
+    sc["steps"].append({"op": "wait", "id": waiter})          # recorded as stuck when it does not finish
+    rest = [q for q in held if q != first]
+    sc["steps"].append({"op": "snapshot", "probe": names, "_active": rest, "_done": [first, waiter]})
+    for q in rest:
+        sc["steps"].append({"op": "release", "id": q})
+    sc["steps"].append({"op": "snapshot", "probe": names, "_active": [], "_done": held + [waiter]})
     return sc
 
 
